@@ -105,7 +105,14 @@ def history_independent(ops: List[int], ws: List[int]) -> bool:
     # first-tree request and other start symbol agree with a fresh parser, too
     a = p.parse(WORDS[target], START2)
     b = Parser(G.rules).parse(WORDS[target], START2)
-    return repr(a) == repr(b)
+    if repr(a) != repr(b):
+        return False
+    # ... and so do prefix-mode requests (first tree, then the whole forest)
+    a = p.parse(WORDS[target], mode=ParsingMode.INCOMPLETE)
+    b = Parser(G.rules).parse(WORDS[target], mode=ParsingMode.INCOMPLETE)
+    if repr(a) != repr(b):
+        return False
+    return forest_obs(p, WORDS[target], mode=ParsingMode.INCOMPLETE) == forest_obs(Parser(G.rules), WORDS[target], mode=ParsingMode.INCOMPLETE)
 
 
 def reach(ops: List[int], ws: List[int]) -> bool:
